@@ -292,12 +292,11 @@ def build_time(spec, QK):
     if spec["op"] == "G":
         g = mk(spec["g_shape"], spec["g"], spec["form"])
         thunk = lambda: epg.G(tau, g, duration=dur)
-        term = "G_ok %s %s %s %s %s %s %s" % (QK, q(C_GAMMA), natl(spec["tau_shape"]), ql(spec["tau"]),
+        term = "G_ok %s %s %s %s %s %s" % (q(C_GAMMA), natl(spec["tau_shape"]), ql(spec["tau"]),
                                           natl(spec["g_shape"]), ql(spec["g"]), durarg(d))
     else:
         thunk = lambda: epg.C(tau, duration=dur)
-        term = "C_ok %s %s %s %s %s" % (QK, core.coq_bool(isinstance(tau, list)), natl(spec["tau_shape"]),
-                                        ql(spec["tau"]), durarg(d))
+        term = "C_ok %s %s %s" % (natl(spec["tau_shape"]), ql(spec["tau"]), durarg(d))
     return thunk, term
 
 
@@ -374,7 +373,7 @@ def build_shift(spec, QK):
     if spec.get("op") == "G":
         return build_time(spec, QK)
     k = mk_k(spec)
-    return (lambda: epg.S(k)), "S_ok %s %s None" % (QK, karg(spec))
+    return (lambda: epg.S(k)), "S_ok %s None" % karg(spec)
 
 
 # ================================================================== 5. float shift without a grid
@@ -428,7 +427,7 @@ def build_grid(spec, QK):
     thunk = lambda: epg.S(k, **okw)(sm0)
     coords = {"fresh": "CNone", "int_nd": "CInt", "float": "CFloat"}[spec["pre"]]
     g = lambda on: "(Some %s)" % q(0.5) if on else "None"
-    term = "S_ok %s %s None >> S_apply_ok %s %s %s %s" % (QK, karg(spec), karg(spec), coords,
+    term = "S_ok %s None >> S_apply_ok %s %s %s %s" % (karg(spec), karg(spec), coords,
                                                         g(spec["grid"] == "sm"), g(spec["grid"] == "op"))
     return thunk, term
 
@@ -760,11 +759,11 @@ def build_kinetic(spec, QK):
     import epgpy as epg
     tau = spec["tau"]
     if "scalar" in spec:
-        return (lambda: epg.X(tau, spec["scalar"])), "X_ok %s %s (KhiScalar %s) DNone" % (QK, q(tau), q(spec["scalar"]))
+        return (lambda: epg.X(tau, spec["scalar"])), "X_ok %s (KhiScalar %s) DNone" % (q(tau), q(spec["scalar"]))
     khi = mk(spec["shape"], spec["data"], spec["form"])
     if spec["call"] == "ctor":
         d = spec["dur"]
-        term = "X_ok %s %s (KhiArr %s %s) %s" % (QK, q(tau), natl(spec["shape"]), ql(spec["data"]), durarg(d))
+        term = "X_ok %s (KhiArr %s %s) %s" % (q(tau), natl(spec["shape"]), ql(spec["data"]), durarg(d))
         return (lambda: epg.X(tau, khi, duration=d)), term
     dens = spec["dens"]
     op = epg.X(tau, khi)
@@ -844,7 +843,7 @@ def build_diffusion(spec, QK):
     Dm = 1.0 if m is None else np.eye(m)
     k = None if kk is None else [1.0] * kk
     op = epg.D(5.0, Dm, k)
-    term = "D_apply_ok %s %s %s %s" % (QK, opt(m, nat), opt(kk, nat), nat(min(kds, 3)))
+    term = "D_apply_ok %s %s %s" % (opt(m, nat), opt(kk, nat), nat(min(kds, 3)))
     return (lambda: op(sm)), term
 
 
@@ -1284,8 +1283,8 @@ BOUNDARY = {
     "tau_zero_P": (lambda epg, sm: epg.P(0, 0.5, duration=True)(sm), "timed_op_ok DTrue [0%Q]"),
     "tau_zero_D": (lambda epg, sm: epg.D(0, 1.0, duration=True)(epg.S(1)(sm)), "timed_op_ok DTrue [0%Q]"),
     "tau_zero_X_scalar_rate": (lambda epg, sm: epg.X(0, 0.125, duration=True)(sm),
-                               "X_ok QK 0%Q (KhiScalar (1 # 8)%Q) DTrue"),
-    "zero_rate_X": (lambda epg, sm: epg.X(1.0, 0.0)(sm), "X_ok QK 1%Q (KhiScalar 0%Q) DNone"),
+                               "X_ok 0%Q (KhiScalar (1 # 8)%Q) DTrue"),
+    "zero_rate_X": (lambda epg, sm: epg.X(1.0, 0.0)(sm), "X_ok 1%Q (KhiScalar 0%Q) DNone"),
     "zero_duration_Wait": (lambda epg, sm: epg.Wait(0)(sm), "wait_ok [0%Q]"),
     "zero_relaxation_R": (lambda epg, sm: epg.R(0, 0)(sm), "duration_ok None"),
     "zero_density_PD": (lambda epg, sm: epg.PD(0.0)(sm), "duration_ok None"),
@@ -1293,9 +1292,9 @@ BOUNDARY = {
                                                          epg.Wait(0), epg.ADC]),
                           "simulate_ok 8 [IOp [1%nat]; IOp [1%nat]; IOp [1%nat]; IProbe]"),
     "shift_exactly_4_components": (lambda epg, sm: epg.S([1, 1, 1, 1])(sm),
-                                   "S_ok QK (KArr false [4%nat] [1%Q;1%Q;1%Q;1%Q]) None"),
+                                   "S_ok (KArr false [4%nat] [1%Q;1%Q;1%Q;1%Q]) None"),
     "gradient_exactly_3_components": (lambda epg, sm: epg.G(1.0, [1.0, 1.0, 1.0], kgrid=1.0)(sm),
-                                      "G_ok QK 1%Q [] [1%Q] [3%nat] [1%Q;1%Q;1%Q] DNone"),
+                                      "G_ok 1%Q [] [1%Q] [3%nat] [1%Q;1%Q;1%Q] DNone"),
 }
 
 
@@ -1331,19 +1330,14 @@ CLASSES = {
 
 
 def probe_quirks():
-    """replay the witnesses of the listed defects: the model switches follow the code that exists"""
+    """replay the witness of the listed defect: the model switch follows the code that exists"""
     import epgpy as epg
-    khi = [[[-1.0, 1.0], [1.0, -1.0]], [[-2.0, 2.0], [2.0, -2.0]]]
-    q1 = observe(lambda: epg.X(0, khi)) is not None and observe(lambda: epg.X(1.0, khi)) is None
-    q2 = observe(lambda: epg.D(5.0, np.eye(3))(epg.S(1)(epg.T(90, 0)(epg.StateMatrix())))) is None
     q3 = observe(lambda: epg.T(30, 0, order1=True, order2=["alpha", "phi"])) == "TypeError"
-    q4 = observe(lambda: epg.C([1.0, 2.0])) == "TypeError" and observe(lambda: epg.C(np.array([1.0, 2.0]))) is None
-    q5 = observe(lambda: epg.S(np.array([[1], [0]]))) is None
-    return q1, q2, q3, q5, q4
+    return (q3,)
 
 
 def qk_term(qs):
-    return "(mkQuirks %s %s %s %s %s)" % tuple(core.coq_bool(b) for b in qs)
+    return "(mkQuirks %s)" % core.coq_bool(qs[0])
 
 
 def signature(cs):
@@ -1355,7 +1349,7 @@ def run(ctx):
     proved = ctx.prove(gen=False)
     qs = probe_quirks()
     QK = qk_term(qs)
-    ctx.notes["quirk_switches"] = dict(zip(["expm_zero_batch", "diffusion_broadcast1", "order2_list", "zero_row", "C_list_tau"], qs))
+    ctx.notes["quirk_switches"] = dict(zip(["order2_list"], qs))
     scale = 50 if ctx.tier == "quick" else 400
     cases = []
     for name, (gen, _, w) in CLASSES.items():
